@@ -124,6 +124,10 @@ func (i *FSMInstance) Do(event fsm.Event, args ...interface{}) (result *fsm.Resp
 
 		dump, dumpErr = i.dump.Marshal()
 		if dumpErr != nil {
+			// a round that cannot be dumped must not be reported as a successful step
+			if err == nil {
+				err = fmt.Errorf("failed to dump the round: %w", dumpErr)
+			}
 			return result, []byte{}, err
 		}
 	}
